@@ -700,6 +700,72 @@ fn run_dual(d: &Dual, unit: &Value, only: Option<&[Tok]>, ctx: &mut Ctx) {
     });
 }
 
+// ------------------------------------------------------------------------------------------
+// an argument with a second (alias) short name beside two switches: every spelling that works
+// with the first short name works with the alias (alone, attached, with `=`, closing a cluster)
+// ------------------------------------------------------------------------------------------
+fn alias_short_opts(wrap: usize, multibyte: bool) -> Opts {
+    let (a, b) = if multibyte { ('ñ', 'Ñ') } else { ('n', 'N') };
+    let names = Names { shorts: vec![a, b], longs: vec!["name".into()], envs: vec![], help: None, long_first: false };
+    let arg = P::Arg { names, ty: Ty::Os, adjacent: false, metavar: "NAME".into() };
+    let arg = match wrap {
+        0 => arg,
+        1 => arg.opt(),
+        _ => arg.many(),
+    };
+    Opts::new(P::Seq(vec![P::Switch(Names::short('v')), P::Switch(Names::short('q')), arg]))
+}
+
+fn run_alias_short(wrap: usize, multibyte: bool, unit: &Value, only: Option<&[Tok]>, ctx: &mut Ctx) {
+    let p = match build_checked(&alias_short_opts(wrap, multibyte)) {
+        Ok(p) => p,
+        Err(_) => return,
+    };
+    let names = if multibyte { ['ñ', 'Ñ'] } else { ['n', 'N'] };
+    for cluster in ["", "v", "q", "vq", "qv"] {
+        for name in names {
+            for value in ["Bob", "7", "é"] {
+                for form in 0..3 {
+                    // (`-vn=7` is not a supported spelling: `=` only follows a lone short name)
+                    if form == 1 && !cluster.is_empty() {
+                        continue;
+                    }
+                    let head = format!("-{}{}", cluster, name);
+                    let argv: Vec<Tok> = match form {
+                        0 => vec![Tok::s(&head), Tok::s(value)],
+                        1 => vec![Tok::s(&format!("{}={}", head, value))],
+                        _ => vec![Tok::s(&format!("{}{}", head, value))],
+                    };
+                    if only.map_or(false, |o| o != argv.as_slice()) {
+                        continue;
+                    }
+                    ctx.begin_case(|| json!({"argv": argv}));
+                    ctx.s.evaluations += 1;
+                    ctx.s.states += 1;
+                    let v = Val::s(value);
+                    let arg_val = match wrap {
+                        0 => v,
+                        1 => Val::some(v),
+                        _ => Val::L(vec![v]),
+                    };
+                    let want = Val::T(vec![Val::B(cluster.contains('v')), Val::B(cluster.contains('q')), arg_val]);
+                    let got = run(&p, &argv);
+                    if got == Outcome::Value(want.clone()) {
+                        ctx.s.nontrivial += 1;
+                        ctx.count("alias-short-name-spellings-judged");
+                    } else {
+                        let mut sig = BTreeMap::new();
+                        sig.insert("clause".to_string(), "every-short-name-of-an-argument-spells-it".to_string());
+                        sig.insert("form".to_string(), ["detached", "equals", "attached"][form].to_string());
+                        sig.insert("alias".to_string(), (name == names[1]).to_string());
+                        ctx.violation(Violation { property: "C02".into(), rule: "equivalent-spellings-same-value".into(), sig, unit: unit.clone(), case: json!({"argv": argv}), expected: format!("{:?}", want), observed: got.brief(), size: argv.len() * 1000 + argv[0].0.len() });
+                    }
+                }
+            }
+        }
+    }
+}
+
 impl Check for C02 {
     fn id(&self) -> &'static str {
         "C02"
@@ -763,6 +829,11 @@ impl Check for C02 {
         for kind in 0..3 {
             out.push(json!({"dual": Dual { kind, len: tier.pick(5, 6) }}));
         }
+        for wrap in 0..3 {
+            for multibyte in [false, true] {
+                out.push(json!({"alias_short": wrap, "multibyte": multibyte}));
+            }
+        }
         out
     }
     fn run_unit(&self, unit: &Value, ctx: &mut Ctx) {
@@ -783,6 +854,10 @@ impl Check for C02 {
         if let Some(d) = unit.get("dual") {
             let d: Dual = serde_json::from_value(d.clone()).unwrap();
             run_dual(&d, unit, None, ctx);
+            return;
+        }
+        if let Some(w) = unit.get("alias_short").and_then(|w| w.as_u64()) {
+            run_alias_short(w as usize, unit["multibyte"].as_bool() == Some(true), unit, None, ctx);
             return;
         }
         let u: Unit = serde_json::from_value(unit.clone()).unwrap();
@@ -814,6 +889,11 @@ impl Check for C02 {
             run_dual(&d, unit, Some(&argv), ctx);
             return;
         }
+        if let Some(w) = unit.get("alias_short").and_then(|w| w.as_u64()) {
+            let argv: Vec<Tok> = serde_json::from_value(case["argv"].clone()).unwrap_or_default();
+            run_alias_short(w as usize, unit["multibyte"].as_bool() == Some(true), unit, Some(&argv), ctx);
+            return;
+        }
         let u: Unit = serde_json::from_value(unit.clone()).unwrap();
         let sent: Vec<Occ> = serde_json::from_value(case["sentence"].clone()).unwrap_or_default();
         let want: Option<Vec<Tok>> = serde_json::from_value(case["argv"].clone()).ok();
@@ -836,7 +916,7 @@ impl Check for C02 {
         ctx.s.evaluations += c2.s.evaluations;
     }
     fn rule(&self) -> String {
-        "definitions = {4 name sets incl. 2-, 3- and 4-byte short names and non-ASCII longs} x {OsString, PathBuf, String, u32} x {plain, adjacent} x {required, optional, many, fallback, hidden optional, hidden many} in three shapes (two flags + argument; argument alone; three valued items with short names declared in descending / ascending / mixed order), the three-item shape also with the argument under every metadata-only decoration (displayed fallback, group_help, with_group_help, custom_usage, hide_usage, help attached after the adjacent restriction), below a sub-command, and beside a sub-command whose one-letter alias is the short name of the argument; abstract sentences = all sequences of <= max_occ occurrences (flag | argument with each value of the byte-string alphabet); for each sentence EVERY concrete spelling is generated (--n v, --n=v, -n v, -n=v, -nv, every alias, every clustering of adjacent flags, clusters ending in the argument with =/attached/detached value) and run; plus an adjacent group led by a valued item (--x X --y Y) with every mixture of attached and detached values, plus one name declared twice (adjacent many + plain many in both declaration orders; adjacent optional + switch, the documented `--pkg=NAME` / bare `--pkg` idiom) over every vector of the token tree: the adjacent argument takes exactly the one-item spellings wherever they stand; evaluation = one spelling run; non-trivial = sentence with more than one spelling".into()
+        "definitions = {4 name sets incl. 2-, 3- and 4-byte short names and non-ASCII longs} x {OsString, PathBuf, String, u32} x {plain, adjacent} x {required, optional, many, fallback, hidden optional, hidden many} in three shapes (two flags + argument; argument alone; three valued items with short names declared in descending / ascending / mixed order), the three-item shape also with the argument under every metadata-only decoration (displayed fallback, group_help, with_group_help, custom_usage, hide_usage, help attached after the adjacent restriction), below a sub-command, and beside a sub-command whose one-letter alias is the short name of the argument; abstract sentences = all sequences of <= max_occ occurrences (flag | argument with each value of the byte-string alphabet); for each sentence EVERY concrete spelling is generated (--n v, --n=v, -n v, -n=v, -nv, every alias, every clustering of adjacent flags, clusters ending in the argument with =/attached/detached value) and run; plus an adjacent group led by a valued item (--x X --y Y) with every mixture of attached and detached values, plus one name declared twice (adjacent many + plain many in both declaration orders; adjacent optional + switch, the documented `--pkg=NAME` / bare `--pkg` idiom) over every vector of the token tree: the adjacent argument takes exactly the one-item spellings wherever they stand; evaluation = one spelling run; non-trivial = sentence with more than one spelling; plus an argument with a second (alias) short name, ASCII and two-byte, beside two switches, required / optional / many: detached and attached value behind every cluster of the switches (= after a lone name), with either short name".into()
     }
     fn bounds(&self, tier: Tier) -> Value {
         json!({"occurrences_per_sentence": "<=3 (<=2 for the lone repeated argument)", "values": tier.pick("6 values (14 for OsString lone argument)", "14 values everywhere"), "value_alphabet": values_full()})
